@@ -493,10 +493,9 @@ class TopKRetrieval(base.MergeableMetric, base.HasAsAggFn):
     # topk:     [top1, top2, top3]
     # tp_topks: [1,     1,      2]
     tp_at_topks = np.cumsum(tp, axis=1)
-    # Truncates the k_list with maximum length of the predictions.
-    k_list = np.asarray(
-        [k for k in k_list if k < max_pred_count] + [max_pred_count]
-    )
+    # Clips the k_list with maximum length of the predictions. Every k is kept
+    # so that the batch result always has one value per k in the k_list.
+    k_list = np.asarray([min(k, max_pred_count) for k in k_list])
 
     # A consecutive K list that is useful to calculate average-over-Ks metrics
     # such as mean average precision.
